@@ -34,6 +34,8 @@ def setup(d):
     os.link(os.path.join(d, "a"), os.path.join(d, "hard_a"))
     os.symlink("d1", os.path.join(d, "link_to_d1"))
     os.symlink("nowhere", os.path.join(d, "dangling"))
+    os.symlink("loop2", os.path.join(d, "loop1"))
+    os.symlink("loop1", os.path.join(d, "loop2"))
     os.makedirs(os.path.join(d, "alt", "d1"))        # other entries with the same last component as a / d1
     w("alt/a", b"another a\n")
     w("alt/d1/g", b"g")
@@ -60,6 +62,12 @@ def gen(rng, quick):
         cs.append(("missing@%d-glob" % pos, ["--glob"] + around("missing", pos) + ["out"], True))
         cs.append(("missing-pattern@%d-glob" % pos, ["--glob"] + around("zz*", pos) + ["out"], True))
         cs.append(("dangling@%d" % pos, around("dangling", pos) + ["out"], True))
+    # a source that is missing in another way than ENOENT: below a regular file (ENOTDIR), through a link loop (ELOOP),
+    # a component longer than NAME_MAX (ENAMETOOLONG) — still "a missing source even among valid ones"
+    for pos in (0, 1, 2):
+        for bad, lab in (("a/x", "enotdir"), ("loop1/x", "eloop"), ("n" * 300, "enametoolong"), ("loop1", "eloop-direct")):
+            for dest in (("out", "newdest") if pos != 2 else ("out",)):
+                cs.append(("missing-%s@%d->%s" % (lab, pos, dest), around(bad, pos) + [dest], True))
     cs.append(("missing-single", ["missing", "out"], True))
     cs.append(("missing-single-new", ["missing", "newdest"], True))
     # 3. directory without --recursive
